@@ -153,3 +153,30 @@ def build():
                 add(f.__code__)
     _BUILT.update(Queue=Queue, Condition=Condition, codes=codes)
     return Queue, Condition, codes
+
+
+def build_event():
+    """-> (Event class built from the stdlib source over Condition(CLock), code objects to instrument)"""
+    if 'Event' in _BUILT:
+        return _BUILT['Event'], _BUILT['event_codes']
+    _q, Condition, _c = build()
+    ns = {'__name__': 'simos.stdlib_threading_event', 'Condition': Condition, 'Lock': CLock}
+    exec(compile(inspect.getsource(_threading.Event), _threading.__file__, 'exec'), ns)
+    Event = ns['Event']
+    Event.__reduce__ = lambda self: (_ for _ in ()).throw(TypeError("cannot pickle '_thread.lock' object"))
+    codes = []
+
+    def add(co):
+        codes.append(co)
+        for c in co.co_consts:
+            if isinstance(c, types.CodeType):
+                add(c)
+    for name, v in sorted(vars(Event).items()):
+        if isinstance(v, types.FunctionType) and name != '__reduce__':
+            add(v.__code__)
+    # Condition's code objects are instrumented too (they may not be when the tree under test uses SimpleQueue)
+    for name, v in sorted(vars(Condition).items()):
+        if isinstance(v, types.FunctionType):
+            add(v.__code__)
+    _BUILT.update(Event=Event, event_codes=codes)
+    return Event, codes
